@@ -1,8 +1,30 @@
 package driver
 
-type WireCase struct{}
 type ConcurrentConfig struct{}
 
-func RunIface(reg Registry, rec *Recorder)               {}
-func RunWire(reg Registry, rec *Recorder, g Group)       {}
 func RunConcurrent(reg Registry, rec *Recorder, g Group) {}
+
+// RunIface reports, per operation, the distinct concrete package types implementing its response interface.
+func RunIface(reg Registry, rec *Recorder) {
+	ops, err := Ops(reg)
+	if err != nil {
+		rec.Emit(Event{"ev": "DriverError", "err": err.Error()})
+		return
+	}
+	for _, op := range ops {
+		seen := map[string]bool{}
+		var names []string
+		for _, n := range Implementers(reg, op.RespType) {
+			t := reg.Types[n]
+			key := t.PkgPath() + "." + t.Name() // aliases share one reflect.Type
+			if !seen[key] {
+				seen[key] = true
+				names = append(names, t.Name())
+			}
+		}
+		if names == nil {
+			names = []string{}
+		}
+		rec.Emit(Event{"ev": "Iface", "op": op.ID(), "implementers": names})
+	}
+}
